@@ -4,12 +4,18 @@ NOT_APPLICABLE = {
     "C01": ("whole-run trace equality (two runs, fresh process) is decided by the tokio current-thread scheduler, per-process "
             "SipHash keys of std hash containers and wall-clock reads; none is encodable (tokio runtime construction and "
             "thread-locals with destructors ICE/are unsupported in Kani 0.68; hashbrown with symbolic keys did not finish in 30 min); "
+            "an executor model of the paused tokio runtime was built and validated against the real one, but one Sim::step with a client "
+            "that sleeps once had no verdict in 15 min (nested async blocks are not constant-folded by CBMC; DESIGN.md section 1); "
             "trace diffing would be a different technique"),
     "C04": ("decided by Rt::crash/bounce dropping and rebuilding a tokio Runtime + LocalSet so that every task destructor runs, and by "
             "peers being woken; runtime construction, task teardown and wake-ups are not encodable with Kani (wakers are stubbed by "
-            "necessity); the table-release functions the destructors call are covered under C12/C15/C09 but do not decide C04"),
+            "necessity); with the executor model of /verif/models/tokio (validated against the real runtime incl. crash = LocalSet drop) "
+            "Sim::new + client + one Sim::step is encodable only for a client without any await point (80 s); one sleep: no verdict in "
+            "15 min; the table-release functions the destructors call are covered under C12/C15/C09 but do not decide C04"),
     "C11": ("decided by Sim::step's loop over Rt values and Rt::tick (block_on, JoinHandle::is_finished, panic forwarding); an Rt cannot "
-            "be constructed without a tokio runtime, which Kani cannot build; stubbing Rt::tick away would leave nothing of the property"),
+            "be constructed without a tokio runtime, which Kani cannot build; with the executor MODEL (models/tokio, validated against "
+            "the real paused runtime) Rt::tick's nested async blocks are not constant-folded and one step with a sleeping client had "
+            "no verdict in 15 min (measured, DESIGN.md section 1); stubbing Rt::tick away would leave nothing of the property"),
 }
 
 # --------------------------------------------------------------------------------------------------
